@@ -149,3 +149,63 @@ Example x_designated :
   designated x_map x_idx 20 = [xd1; xf1; xf1] /\ designated x_map x_idx 21 = [xf2] /\
   reachable x_idx = [xd1; xf1; xf2; xf1].
 Proof. vm_compute. auto. Qed.
+
+(* ====================================================================================== *)
+(* The recorded finding C18:designated-object-not-pushed:remote-group-served-by-several-caches.
+   With the precondition that index.save establishes (the object of every entry is in the cache
+   the mapping designates for ITS key) instead of "the group's cache holds the group's request",
+   the statement of C18_push is false: two disjoint prefixes, one remote, two caches. *)
+Definition push_full : Prop := forall e m idx w out,
+  NoDup (map fst m) ->
+  run_round e RPush m idx w = out -> p_err out = None ->
+  indep RPush (collect m idx) ->
+  (forall g, In g (collect m idx) -> wf (gin e RPush w g)) ->
+  (forall s o, e_fails e s o = false) ->
+  (forall k o c, In (k, o) (entries m idx) -> cache_of m k = Some c -> has (sget w c) o = true) ->
+  forall r o, In o (designated m idx r) -> has (sget (p_w out) r) o = true.
+
+Definition y_fA : oid := [102; 65].
+Definition y_fB : oid := [102; 66].
+Definition y_idx : index := [IFile [[120]] y_fA; IFile [[121]] y_fB].
+Definition y_map : smap :=
+  [([[120]], {| si_data := None; si_cache := Some 10; si_remote := Some 20 |});
+   ([[121]], {| si_data := None; si_cache := Some 11; si_remote := Some 20 |})].
+Definition y_w : stores := [(10, [(y_fA, [1])]); (11, [(y_fB, [2])])].
+Definition y_env : env :=
+  {| e_parse := fun _ => None; e_fails := fun _ _ => false; e_dord := fun l => l; e_bord := fun l => l |}.
+
+Example y_collect :
+  collect y_map y_idx = [ {| g_data := 20; g_cache := Some 10; g_req := [y_fA; y_fB] |} ].
+Proof. reflexivity. Qed.
+Example y_run :
+  let out := run_round y_env RPush y_map y_idx y_w in
+  (p_err out, p_moved out, p_failed out) = (None, 1, 0) /\ map fst (sget (p_w out) 20) = [y_fA] /\
+  designated y_map y_idx 20 = [y_fA; y_fB].
+Proof. vm_compute. auto. Qed.
+
+Theorem push_refuted : ~ push_full.
+Proof.
+  intros H.
+  assert (Hn : NoDup (map fst y_map)) by (simpl; repeat constructor; simpl; intuition discriminate).
+  assert (Hi : indep RPush (collect y_map y_idx)).
+  { rewrite y_collect. split; [|split].
+    - intros g [<-|[]]; discriminate.
+    - simpl. repeat constructor; simpl; tauto.
+    - intros g g' [<-|[]] [<-|[]]; vm_compute; discriminate. }
+  assert (Hw : forall g, In g (collect y_map y_idx) -> wf (gin y_env RPush y_w g)).
+  { rewrite y_collect. intros g [<-|[]]. constructor.
+    - intros l o; simpl; tauto.
+    - intros l o; simpl; tauto.
+    - intros b l f Hp. discriminate.
+    - split; intros D b1 b2 L; discriminate.
+    - intros D l f Hl. unfold listing in Hl. simpl in Hl. destruct (is_dir_oid D); discriminate.
+    - intros o Ho. discriminate.
+    - right. intros D l f HD Hd. simpl in HD. destruct HD as [<-|[<-|[]]]; vm_compute in Hd; discriminate. }
+  assert (Hp : forall k o c, In (k, o) (entries y_map y_idx) -> cache_of y_map k = Some c ->
+                             has (sget y_w c) o = true).
+  { intros k o c Hin Hc. vm_compute in Hin.
+    destruct Hin as [E|[E|[]]]; inversion E; subst k o; vm_compute in Hc; inversion Hc; subst c; reflexivity. }
+  assert (Hd : In y_fB (designated y_map y_idx 20)) by (vm_compute; auto).
+  pose proof (H y_env y_map y_idx y_w _ Hn eq_refl eq_refl Hi Hw (fun _ _ => eq_refl) Hp 20 y_fB Hd) as F.
+  vm_compute in F. discriminate.
+Qed.
